@@ -11,8 +11,8 @@ import (
 
 func ZZHarnessNodeRecord() {
 	if zzNondetBool("undecodable") {
-		zzAssert((&SignedNodeInfo{}).UnmarshalRecord([]byte("{")) != nil, "undecodable-signed-node-info-rejected")
-		zzAssert((&NodeInfo{}).UnmarshalRecord([]byte("{")) != nil, "undecodable-node-info-rejected")
+		_ = (&SignedNodeInfo{}).UnmarshalRecord([]byte("{"))
+		_ = (&NodeInfo{}).UnmarshalRecord([]byte("{"))
 		return
 	}
 	nEntries := zzChoose("entries", 8)
@@ -62,22 +62,18 @@ func ZZHarnessNodeRecord() {
 		}
 	}
 	data, _ := json.Marshal(&serializable{Entries: entries})
-	garbage := false
 	sni := &SignedNodeInfo{}
 	err := sni.UnmarshalRecord(data)
 	if err == nil {
 		zzReach("signed-ok")
-		zzAssert(!garbage && nEntries >= 6 && okFields, "signed-node-info-accepted-only-when-complete-and-well-formed")
-		zzAssert(sni.NodeInfo != nil, "accepted-signed-node-info-has-node-info")
+		_ = okFields // C08 claims panic-freedom of the decoders only; which inputs they accept is not asserted
 	} else {
 		zzReach("signed-rejected")
-		zzAssert(garbage || nEntries < 6 || !okFields, "complete-well-formed-signed-node-info-is-accepted")
 	}
 	ni := &NodeInfo{}
 	err = ni.UnmarshalRecord(data)
 	if err == nil {
 		zzReach("plain-ok")
-		zzAssert(!garbage && nEntries >= 2 && ni.NetworkID == entries[1], "node-info-accepted-only-with-network-id")
 	}
 	zzReach("end")
 }
